@@ -8,7 +8,7 @@ import routing_gen as rg
 MLS = ("routing",)
 HARNESSES = ()
 THEOREMS = ["C05_exactly_once", "C05_copies_only_to_eavesdroppers", "C05_copies_once", "C05_no_third_party_intact", "C05_only_sends_forward", "C05_delivered", "C05_fifo",
-            "C05_undeliverable_no_owner", "C05_refused_opens_nothing", "C05_undeliverable_partial", "C05_two_errors_refuted"]
+            "C05_undeliverable_no_owner", "C05_refused_opens_nothing", "C05_undeliverable"]
 
 NONTRIVIAL = {"call-delivered", "call-delivered-noreply", "signal-delivered", "reply-delivered", "other-delivered",
               "no-owner-ServiceUnknown", "no-owner-NameHasNoOwner", "limit-refused", "duplicate-serial-refused", "fd-refused"}
